@@ -22,11 +22,14 @@ def judge(ctx, r):
         bad = (s.get("spec") or {}).get("bad", "")
         if C.sha(s["before"]) != C.sha(s["after"]):
             a, b = C.absfile(s["before"]), C.absfile(s["after"])
-            lost = sorted({e[1] for e in a["live"]} - {e[1] for e in (b["live"] if b else [])})
+            lost = sorted({e[1] for e in (a["live"] if a else [])} - {e[1] for e in (b["live"] if b else [])})
             ctx.fail(f"{r.desc} step {i}: {s['op'][0]} raised {cause} ({bad or 'invalid request'}) but the file changed" + (f"; block types {lost} were lost" if lost else ""),
                      rep, ident=f"{s['op'][0]} rejected but file changed")
             return False
         a = C.absfile(s["after"])
+        if a is None:
+            ctx.fail(f"{r.desc} step {i}: the file can no longer be parsed after a rejected call", rep, ident="file unreadable after rejected " + s["op"][0])
+            return False
         disk_tbl = [(e[0], e[1], e[2], e[3], e[4]) for e in a["live"]] + [(e[0], 0, 0, e[1], e[2]) for e in a["free"]]
         mem_tbl = [(e[0], e[1], e[2] if e[1] else 0, e[3], e[4]) for e in s["entries"]]
         if sorted(disk_tbl) != sorted(mem_tbl):
